@@ -134,9 +134,10 @@ def same_violation(rec, want):
     return rec.get("verdict") in ("viol", "foreign") and rec.get("oracle") == want["oracle"] and rec.get("op") == want["op"]
 
 
-def minimise(swarm, ops, want, pool):
+def minimise(swarm, ops, want, pool, budget_s=150):
     """ddmin over the op list, candidates evaluated in parallel; keeps (oracle, op kind) fixed"""
     tests = [0]
+    t_end = time.time() + budget_s
 
     def fails(cand):
         tests[0] += 1
@@ -150,7 +151,7 @@ def minimise(swarm, ops, want, pool):
         if fails(cand):
             cur = cand
     n = 2
-    while len(cur) >= 2:
+    while len(cur) >= 2 and time.time() < t_end:
         chunk = max(1, len(cur) // n)
         cands = []
         for i in range(0, len(cur), chunk):
@@ -302,7 +303,7 @@ def check(prop, tier):
             new_groups.append(r)
     seen_min = set()
     replay_samples = []
-    for r in new_groups[:8]:
+    for r in new_groups[:4]:
         swarm, ops = get_plan(lane_of[r["idx"]], seed, tier, r["lane_idx"])
         # gate 1: the same seed reproduces with the same event hash
         again = exec_plan(swarm, ops)
